@@ -122,58 +122,66 @@ Definition Qeq_bool_list (a b : list Q) : bool := forallb2 Qeq_bool a b.
 
 (* ---- the wrappers themselves, run in the model with the recording stub in place of the solver ---- *)
 Definition rel_wrap : Q := pow2 (-50).
-Definition vec_close (a b : vec) : bool := forallb2 (fun u v => within u v (rel_wrap * Qabs u)) a b.
-Definition mat_close (A B : mat) : bool := forallb2 vec_close A B.
+(* a float32 Tikhonov matrix: NumPy forms alpha * L in single precision (eps = 2^-24) *)
+Definition rel_wrap_single : Q := pow2 (-21).
+Definition rel_single : Q := pow2 (-17).
+Definition vec_close (rel : Q) (a b : vec) : bool := forallb2 (fun u v => within u v (rel * Qabs u)) a b.
+Definition mat_close (rel : Q) (A B : mat) : bool := forallb2 (vec_close rel) A B.
 
 (* [Ci], [di]: the system the implementation handed to the solver; [xs], [rs]: what the stub returned;
    [xo], [ro]: what the wrapper returned *)
-Definition check_nnls_wrapper (n : nat) (W : mat) (b : vec) (alpha : Q) (L : option mat)
+Definition check_nnls_wrapper (single : bool) (n : nat) (W : mat) (b : vec) (alpha : Q) (L : option mat)
            (Ci : mat) (di : vec) (xs : vec) (rs : Q) (xo : vec) (ro : Q) : Z :=
+  let rel := if single then rel_wrap_single else rel_wrap in
   b2z (match invert_regularised_nnls (fun _ _ => (xs, rs)) n W b alpha L with
        | LsErrValue => false
        | LsOk x r =>
            let C := stackC W alpha (tikhonov_or_identity n L) in
            let d := stackd b n in
            let v := vmax d in
-           mat_close (map (scale_row (/ v)) C) Ci && vec_close (scale_row (/ v) d) di
+           mat_close rel (map (scale_row (/ v)) C) Ci && vec_close rel (scale_row (/ v) d) di
            && Qeq_bool_list x xo && within r ro (rel_wrap * Qabs r)
        end).
 
-Definition check_lstsq_wrapper (n : nat) (W : mat) (b : vec) (alpha : Q) (L : option mat)
+Definition check_lstsq_wrapper (single : bool) (n : nat) (W : mat) (b : vec) (alpha : Q) (L : option mat)
            (Ci : mat) (di : vec) (same_x same_res : bool) : Z :=
-  b2z (mat_close (stackC W alpha (tikhonov_or_identity n L)) Ci && vec_close (stackd b n) di
+  let rel := if single then rel_wrap_single else rel_wrap in
+  b2z (mat_close rel (stackC W alpha (tikhonov_or_identity n L)) Ci && vec_close rel (stackd b n) di
        && same_x && same_res).
 
 (* output of invert_regularised_nnls: eps-KKT for the stacked system, and rnorm^2 = objective *)
-Definition check_nnls (n : nat) (W : mat) (b : vec) (alpha : Q) (L : option mat) (x : vec) (rnorm : Q) : bool :=
+Definition check_nnls (rel : Q) (n : nat) (W : mat) (b : vec) (alpha : Q) (L : option mat) (x : vec) (rnorm : Q) : bool :=
   Nat.eqb (length x) n &&
   let C := stackC W alpha (tikhonov_or_identity n L) in
   let d := stackd b n in
-  (eps_kkt C d x (rel_kkt * grad_scale C d x) (rel_kkt * obj_scale C d x))
-  && Qle_bool 0 rnorm && within (rnorm * rnorm) (obj C d x) (rel_kkt * obj_scale C d x).
+  (eps_kkt C d x (rel * grad_scale C d x) (rel * obj_scale C d x))
+  && Qle_bool 0 rnorm && within (rnorm * rnorm) (obj C d x) (rel * obj_scale C d x).
 
 (* output of invert_regularised_lstsq: eps-normal equations; the residual (sum of squares) when reported *)
-Definition check_lstsq (n : nat) (W : mat) (b : vec) (alpha : Q) (L : option mat) (x : vec) (res : list Q) : bool :=
+Definition check_lstsq (rel : Q) (n : nat) (W : mat) (b : vec) (alpha : Q) (L : option mat) (x : vec) (res : list Q) : bool :=
   Nat.eqb (length x) n &&
   let C := stackC W alpha (tikhonov_or_identity n L) in
   let d := stackd b n in
-  eps_normal_eq C d x (rel_kkt * grad_scale C d x)
+  eps_normal_eq C d x (rel * grad_scale C d x)
   && match res with
      | [] => true
-     | [r] => within r (obj C d x) (rel_kkt * obj_scale C d x)
+     | [r] => within r (obj C d x) (rel * obj_scale C d x)
      | _ => false
      end.
 
 (* output of invert_svd: eps-normal equations of |Wx-b|^2 *)
 (* looser: the code multiplies by the explicit pseudo-inverse, which loses eps x cond(W) *)
 Definition rel_svd : Q := pow2 (-26).
-Definition check_svd (W : mat) (b : vec) (x : vec) : bool :=
-  eps_normal_eq W b x (rel_svd * grad_scale W b x).
+(* a float32 geometry matrix is not promoted by invert_svd: scipy computes the pseudo-inverse in single
+   precision (eps = 2^-24); the certificate is then asked for at single precision *)
+Definition check_svd (rel : Q) (W : mat) (b : vec) (x : vec) : bool :=
+  eps_normal_eq W b x (rel * grad_scale W b x).
 
-Definition check_nnls_out (n : nat) (W : mat) (b : vec) (alpha : Q) (L : option mat) (x : vec) (rnorm : Q) : Z :=
-  b2z (negb (Qeq_bool (vmax (stackd b n)) 0) && check_nnls n W b alpha L x rnorm).
+Definition check_nnls_out (single : bool) (n : nat) (W : mat) (b : vec) (alpha : Q) (L : option mat) (x : vec) (rnorm : Q) : Z :=
+  b2z (negb (Qeq_bool (vmax (stackd b n)) 0) && check_nnls (if single then rel_single else rel_kkt) n W b alpha L x rnorm).
 (* the implementation raised ValueError: the model must say the same *)
 Definition check_nnls_error (n : nat) (b : vec) : Z := b2z (Qeq_bool (vmax (stackd b n)) 0).
-Definition check_lstsq_out (n : nat) (W : mat) (b : vec) (alpha : Q) (L : option mat) (x : vec) (res : list Q) : Z :=
-  b2z (check_lstsq n W b alpha L x res).
-Definition check_svd_out (W : mat) (b : vec) (x : vec) : Z := b2z (check_svd W b x).
+Definition check_lstsq_out (single : bool) (n : nat) (W : mat) (b : vec) (alpha : Q) (L : option mat) (x : vec) (res : list Q) : Z :=
+  b2z (check_lstsq (if single then rel_single else rel_kkt) n W b alpha L x res).
+Definition check_svd_out (single : bool) (W : mat) (b : vec) (x : vec) : Z :=
+  b2z (check_svd (if single then rel_single else rel_svd) W b x).
